@@ -1,5 +1,6 @@
 """C20 - equality is observational: equal objects describe and forge identically."""
 import json
+from fractions import Fraction
 
 from .common import PARAMS, rnd_args
 from .elgen import Regs
@@ -23,7 +24,9 @@ def generate(rng, tier):
         yield gen(rng, "bp" if k < 0.4 else ("el" if k < 0.65 else "seq"))
 
 
-def base_bp(rng, regs, SR, N):
+def base_bp(rng, regs, SR, N, wait_pad=None):
+    """wait_pad: insert `waituntil` after the first segment, filling wait_pad samples (4..6, so that the edits below,
+    which lengthen a segment by at most 2 samples, never come near the target)."""
     r = regs.B()
     ops = [("BNew", r)]
     sizes = [2] * max(1, min(rng.randint(1, 4), N // 2))
@@ -36,6 +39,8 @@ def base_bp(rng, regs, SR, N):
         ops.append(("BInsert", r, -1, f, rnd_args(rng, f, n / SR), n / SR, nm))
         names.append(nm or f)
         funcs.append(f)
+        if i == 0 and wait_pad:
+            ops.append(("BInsert", r, -1, "waituntil", [float(Fraction(n + wait_pad) / Fraction(SR))], None, None))
     from .common import uniquify
     names = uniquify(names)
     ops.append(("BSetSR", r, SR))
@@ -76,8 +81,9 @@ def gen(rng, kind):
     SR = rng.choice([100, 1000.0, 1e4, 1e9, 2.4e9])       # GS/s rates: one sample is below numpy's default tolerances
     N = rng.randint(6, 24)
     muts = []
+    wait_pad = rng.choice([None, None, 4, 5, 6])
     if kind == "bp":
-        r, prog, names, funcs, sizes = base_bp(rng, regs, SR, N)
+        r, prog, names, funcs, sizes = base_bp(rng, regs, SR, N, wait_pad)
         x, y = regs.B(), regs.B()
         prog += [("BCopy", r, x), ("BCopy", r, y), ("OBEq", r, x), ("OBEq", x, y)]
         for _ in range(rng.choice([0, 1, 1, 2])):
@@ -98,7 +104,7 @@ def gen(rng, kind):
     prog = [("ENew", e)]
     meta = {}
     for c in chans:
-        r, ops, names, funcs, sizes = base_bp(rng, regs, SR, N)
+        r, ops, names, funcs, sizes = base_bp(rng, regs, SR, N, wait_pad)
         prog += ops + [("EAddBp", e, c, r)]
         meta[c] = (names, funcs, sizes)
         if rng.random() < 0.4:
@@ -106,6 +112,9 @@ def gen(rng, kind):
     if kind == "el":
         x, y = regs.E(), regs.E()
         prog += [("ECopy", e, x), ("ECopy", e, y), ("OEEq", e, x)]
+        if rng.random() < 0.4:
+            # forging only ONE of two equal objects is a query, not a mutation: they stay equal
+            prog += [("OEEq", x, y), ("OEArrays", x, rng.random() < 0.5), ("OEEq", x, y), ("OEEq", e, x)]
         for _ in range(rng.choice([0, 1, 1, 2])):
             c = rng.choice(chans)
             k = rng.random()
@@ -118,7 +127,7 @@ def gen(rng, kind):
             elif k < 0.85:
                 m = ("EAddFlags", x, c, rng.choice([[rng.choice([0, 1, 2, 3]) for _ in range(4)], [0, 0, 0, 0], ["", "", "", ""]]))
             else:
-                r2, ops, *_ = base_bp(rng, regs, SR, N)
+                r2, ops, *_ = base_bp(rng, regs, SR, N, wait_pad)
                 prog += ops
                 m = ("EAddBp", x, c, r2)
             prog.append(m)
@@ -184,11 +193,16 @@ def oracle(case, impl):
         out.append(f"== is not reflexive: {xx[0]}")
     if xy and yx and xy[-1] != yx[-1] and not (isinstance(xy[-1], lang.Err) and isinstance(yx[-1], lang.Err)):
         out.append(f"== is not symmetric: {xy[-1]} vs {yx[-1]}")
-    if case["kind"] != "bp" and len(xy) > 1 and xy[0] != xy[-1] and not isinstance(xy[0], lang.Err):
+    if case["kind"] != "bp" and len(xy) > 1 and xy[-2] != xy[-1] and not isinstance(xy[-2], lang.Err):
         out.append("== changed after a read-only query")
+    if len(xy) == 4 and (xy[0] is not True or xy[1] is not True):
+        out.append(f"two copies of one element compared {xy[0]} before and {xy[1]} after forging one of them (a query)")
     descs = [r for op, r in zip(prog, impl) if op[0] == f"O{key}Descr"]
     fk = {"bp": "OBForge", "el": "OEArrays", "seq": "OSForge"}[case["kind"]]
     fs = [r for op, r in zip(prog, impl) if op[0] == fk]
+    if not case["muts"] and xy and xy[-1] is not True:
+        out.append(f"a copy no longer compares equal to its sibling copy although neither was mutated (== gave {xy[-1]})")
+    fs = fs[-2:]
     if xy and xy[-1] is True:
         d0, d1 = descs
         if json.loads(json.dumps(d0)) != json.loads(json.dumps(d1)):
